@@ -1,6 +1,7 @@
 import Rivaas.Lemmas.PresenceExact
 import Rivaas.Lemmas.PresenceLeaf
 import Rivaas.Lemmas.PresenceErrors
+import Rivaas.Model.PresenceResolve
 /-
 C05 — Validation is deterministic and partial validation follows presence.
 
@@ -763,5 +764,296 @@ theorem nested_redaction_asis_witness :
     let v : Viol := ⟨"max".toList, ["kids".toList, "kids.0".toList, "kids.1".toList, "kids.1.secret".toList]⟩
     (mkErrAsIs o "kids".toList v).hidden = false ∧ (mkErr o "kids".toList v).hidden = true := by
   decide
+
+/-! ## 8. path resolution inside the model (`resolvePath`, `promotedField`, `getJSONFieldName`, `elementTag`)
+
+`validatePartialT` resolves every leaf itself over the shape of the value (`Model/PresenceResolve.lean`);
+the rule table of the sections above is *derived* from it (`inducedRules`), so that every theorem about
+`validatePartial` holds of `validatePartialT`, with "the field's own rule" now spelled out: the path resolves
+(`ruleAt`) and `validator.Var` reports at the resolved location under the element tag. -/
+
+/-- the rule table the resolving model induces on a list of paths -/
+def inducedRules (root : Shape) (var : VarTable) (ps : List Path) : List Rule :=
+  ps.map fun p => { path := p, resolves := true, tags := ownTagsT root var p, num := false, emb := false,
+                    cresolves := false, ctags := some [] }
+
+theorem lemma_ownTags_induced (root : Shape) (var : VarTable) (ps : List Path) (p : Path) (hp : p ∈ ps) :
+    ownTags (inducedRules root var ps) p = ownTagsT root var p := by
+  unfold ownTags ruleFor
+  have hex : ∃ r ∈ inducedRules root var ps, (r.path == p) = true :=
+    ⟨_, List.mem_map.mpr ⟨p, hp, rfl⟩, by simp⟩
+  cases hf : (inducedRules root var ps).find? (fun r => r.path == p) with
+  | none =>
+    obtain ⟨r, hr, hk⟩ := hex
+    have := List.find?_eq_none.mp hf r hr
+    exact absurd hk this
+  | some r =>
+    have hm := List.mem_of_find?_eq_some hf
+    have hk : r.path = p := by simpa using List.find?_some hf
+    unfold inducedRules at hm
+    obtain ⟨q, _, rfl⟩ := List.mem_map.mp hm
+    simp only at hk
+    subst hk
+    simp
+
+/-- the leaf loop consults the rule function at the listed leaves only -/
+theorem lemma_partialLoop_congr (mk : Opts → Path → Viol → FieldErr) (own own' : Path → List Viol) (o : Opts) :
+    ∀ (ls : List Path) (acc : List FieldErr), (∀ p ∈ ls, own p = own' p) →
+      partialLoop mk own o ls acc = partialLoop mk own' o ls acc
+  | [], _, _ => rfl
+  | p :: rest, acc, h => by
+    have hp : own p = own' p := h p (by simp)
+    have ih := fun acc' => lemma_partialLoop_congr mk own own' o rest acc' (fun q hq => h q (by simp [hq]))
+    simp only [partialLoop, hp, ih]
+
+theorem lemma_partialFrom_congr (mk : Opts → Path → Viol → FieldErr) (own own' : Path → List Viol) (o : Opts)
+    (leaves : List Path) (h : ∀ p ∈ leaves, own p = own' p) :
+    partialFrom mk leaves own o = partialFrom mk leaves own' o := by
+  unfold partialFrom
+  rw [lemma_partialLoop_congr mk own own' o _ [] (fun p hp => h p (List.mem_of_mem_take hp))]
+
+/-- what the driver evaluates in partial mode -/
+theorem validatePartialT_unfold (pm : List Path) (root : Shape) (var : VarTable) (o : Opts) :
+    validatePartialT pm root var o = partialFrom mkErr (leafPaths pm) (ownTagsT root var) o := rfl
+
+/-- the resolving model *is* the table-driven model on the table it induces -/
+theorem validatePartialT_eq (pm : List Path) (root : Shape) (var : VarTable) (o : Opts) :
+    validatePartialT pm root var o = validatePartial pm (inducedRules root var (leafPaths pm)) o := by
+  unfold validatePartialT validatePartial
+  exact lemma_partialFrom_congr _ _ _ _ _ fun p hp => (lemma_ownTags_induced root var _ p hp).symm
+
+/-- … and on any table that agrees with its resolution at the leaves (the harness computes such a table
+    with a resolver of its own, independent of the code under test: the oracle's parameter) -/
+theorem validatePartialT_of_agree (pm : List Path) (root : Shape) (var : VarTable) (rules : List Rule) (o : Opts)
+    (h : ∀ p ∈ leafPaths pm, ownTags rules p = ownTagsT root var p) :
+    validatePartialT pm root var o = validatePartial pm rules o := by
+  unfold validatePartialT validatePartial
+  exact lemma_partialFrom_congr _ _ _ _ _ fun p hp => (h p hp).symm
+
+/-- **partial validation validates exactly the present leaves that resolve** — with the path resolution of
+    the code inside the model: `(p, c)` is reported iff `p` is a present leaf, `resolvePath` finds a value for
+    it that has a rule of its own (`ruleAt`: the field's `validate` tag, for an element what follows the
+    matching `dive`), and `validator.Var` reports `c` for that value under that rule -/
+theorem partialT_iff (pm : List Path) (root : Shape) (var : VarTable) (o : Opts)
+    (ht : truncOf (validatePartialT pm root var o) = false) (hl : (leafPaths pm).length ≤ maxLeaves o)
+    (p : Path) (c : Bytes) :
+    (∃ e ∈ fieldsOf (validatePartialT pm root var o), e.path = p ∧ e.code = c) ↔
+      IsLeaf pm p ∧ ∃ loc t, ruleAt root p = some (loc, t) ∧ ∃ v ∈ varLookup var loc t, c = tagPrefix ++ v.tag := by
+  rw [validatePartialT_eq] at ht ⊢
+  rw [partial_iff pm _ o ht hl p c]
+  unfold Expected
+  rw [lemma_violations]
+  constructor
+  · rintro ⟨hleaf, w, hw, rfl⟩
+    refine ⟨hleaf, ?_⟩
+    obtain ⟨v, hv, rfl⟩ := List.mem_map.mp hw
+    rw [lemma_ownTags_induced root var _ p ((leaf_fixed_correct pm p).mpr hleaf)] at hv
+    unfold ownTagsT at hv
+    cases hr : ruleAt root p with
+    | none => simp [hr] at hv
+    | some lt =>
+      obtain ⟨loc, t⟩ := lt
+      simp only [hr, List.mem_map] at hv
+      obtain ⟨v0, hv0, rfl⟩ := hv
+      exact ⟨loc, t, rfl, v0, hv0, rfl⟩
+  · rintro ⟨hleaf, loc, t, hr, v, hv, rfl⟩
+    refine ⟨hleaf, ⟨p, tagPrefix ++ v.tag, v.shows.map (p ++ ·)⟩, ?_, rfl⟩
+    apply List.mem_map.mpr
+    refine ⟨{ v with shows := v.shows.map (p ++ ·) }, ?_, rfl⟩
+    rw [lemma_ownTags_induced root var _ p ((leaf_fixed_correct pm p).mpr hleaf)]
+    unfold ownTagsT
+    simp only [hr, List.mem_map]
+    exact ⟨v, hv, rfl⟩
+
+/-- never an absent field, never a non-leaf, never a path that does not resolve -/
+theorem partialT_sound (pm : List Path) (root : Shape) (var : VarTable) (o : Opts) (e : FieldErr)
+    (he : e ∈ fieldsOf (validatePartialT pm root var o)) :
+    e.path ∈ pm ∧ IsLeaf pm e.path ∧ (ruleAt root e.path).isSome = true := by
+  rw [validatePartialT_eq] at he
+  obtain ⟨hleaf, v, hv, _⟩ := partial_sound pm _ o e he
+  refine ⟨hleaf.1, hleaf, ?_⟩
+  rw [lemma_ownTags_induced root var _ _ ((leaf_fixed_correct pm _).mpr hleaf)] at hv
+  unfold ownTagsT at hv
+  cases hr : ruleAt root e.path with
+  | none => simp [hr] at hv
+  | some _ => rfl
+
+/-- capped, `Truncated` only when full, sorted — with the resolution inside -/
+theorem partialT_capped (pm : List Path) (root : Shape) (var : VarTable) (o : Opts) (hm : o.maxErrors > 0)
+    (hs : ∀ loc t, (varLookup var loc t).length ≤ 1) :
+    (fieldsOf (validatePartialT pm root var o)).length ≤ o.maxErrors ∧
+    (truncOf (validatePartialT pm root var o) = true → (fieldsOf (validatePartialT pm root var o)).length = o.maxErrors) := by
+  rw [validatePartialT_eq]
+  have := errors_capped pm (inducedRules root var (leafPaths pm)) o hm (by
+    intro p
+    unfold ownTags ruleFor
+    cases hf : (inducedRules root var (leafPaths pm)).find? (fun r => r.path == p) with
+    | none => simp
+    | some r =>
+      obtain ⟨q, _, rfl⟩ := List.mem_map.mp (List.mem_of_find?_eq_some hf)
+      simp only [if_true]
+      unfold ownTagsT
+      cases ruleAt root q with
+      | none => simp
+      | some lt => simpa using hs lt.1 lt.2)
+  exact ⟨this.1, this.2.1⟩
+
+theorem partialT_sorted (pm : List Path) (root : Shape) (var : VarTable) (o : Opts) :
+    (fieldsOf (validatePartialT pm root var o)).Pairwise (fun a b => errLe a b = true) :=
+  partialFrom_sorted _ _ _ _
+
+/-- **determinism** with the resolution inside: the result is a function of the path set, the shape of the
+    value and the validator's answers — no iteration order of the presence map (or of the cached field
+    map: `fieldIndex` is the map's content, not its order) can change it -/
+theorem partialT_perm (pm₁ pm₂ : List Path) (h : pm₁.Perm pm₂) (root : Shape) (var : VarTable) (o : Opts) :
+    validatePartialT pm₁ root var o = validatePartialT pm₂ root var o := by
+  unfold validatePartialT; rw [leaf_perm pm₁ pm₂ h]
+
+/-- **model ⊨ the oracle the driver runs**, for the resolving model: whenever the independently computed
+    rule table agrees with the model's resolution at the leaves -/
+theorem errorsOK_model_partialT (pm : List Path) (root : Shape) (var : VarTable) (rules : List Rule) (o : Opts)
+    (single : Bool) (hag : ∀ p ∈ leafPaths pm, ownTags rules p = ownTagsT root var p)
+    (hs : single = true → ∀ p, (ownTags rules p).length ≤ 1) :
+    errorsOK (expectedErrs pm rules o) o single (validatePartialT pm root var o) = true := by
+  rw [validatePartialT_of_agree pm root var rules o hag]
+  exact errorsOK_model_partial pm rules o single hs
+
+/-! ### what `resolvePath` resolves to -/
+
+/-- `getJSONFieldName`: no tag, `json:"-"` and an options-only tag (`json:",omitempty"`, K05j) keep the Go
+    name; `json:"-,"` names the field `-` (K05k); otherwise the text before the first comma -/
+theorem jsonName_cases (f : FieldInfo) (opts name : Bytes) :
+    (f.jsonTag = [] → jsonFieldName f = f.name) ∧
+    (f.jsonTag = ['-'] → jsonFieldName f = f.name) ∧
+    (f.jsonTag = ',' :: opts → jsonFieldName f = f.name) ∧
+    (f.jsonTag = '-' :: ',' :: opts → jsonFieldName f = ['-']) ∧
+    (f.jsonTag = name → name ≠ [] → name ≠ ['-'] → (∀ c ∈ name, c ≠ ',') → jsonFieldName f = name) := by
+  refine ⟨?_, ?_, ?_, ?_, ?_⟩
+  · intro h; simp [jsonFieldName, h]
+  · intro h; simp [jsonFieldName, h]
+  · intro h; simp [jsonFieldName, h, cutComma]
+  · intro h
+    simp only [jsonFieldName, h, cutComma]
+    simp
+  · intro h hne hnd hc
+    have hcut : ∀ (l : Bytes), (∀ c ∈ l, c ≠ ',') → cutComma l = none := by
+      intro l
+      induction l with
+      | nil => intro _; rfl
+      | cons a r ih =>
+        intro hl
+        have ha : (a == ',') = false := by simpa using hl a (by simp)
+        simp only [cutComma, ha, Bool.false_eq_true, if_false, ih (fun c hc => hl c (by simp [hc]))]
+    subst h
+    have h1 : f.jsonTag.isEmpty = false := by simpa using hne
+    have h2 : (f.jsonTag == ['-']) = false := by simpa using hnd
+    simp [jsonFieldName, h1, h2, hcut f.jsonTag hc]
+
+/-- a field tagged `json:"-"` is never what a body key resolves to (K05k) -/
+theorem lemma_fieldIndexFrom_maps (name : Bytes) : ∀ (fields : List (FieldInfo × Shape)) (i0 : Nat) (acc : Option Nat) (i : Nat),
+    fieldIndexFrom name fields i0 acc = some i →
+      acc = some i ∨ ∃ k, i = i0 + k ∧ ∃ fs, fields[k]? = some fs ∧ mapsTo fs.1 name = true
+  | [], _, acc, i, h => by simp only [fieldIndexFrom] at h; exact Or.inl h
+  | (f, s) :: rest, i0, acc, i, h => by
+    simp only [fieldIndexFrom] at h
+    rcases lemma_fieldIndexFrom_maps name rest (i0 + 1) _ i h with h1 | ⟨k, hi, fs, hfs, hm⟩
+    · by_cases hm : mapsTo f name = true
+      · simp only [hm, if_true, Option.some.injEq] at h1
+        exact Or.inr ⟨0, by omega, (f, s), by simp, hm⟩
+      · simp only [hm, Bool.false_eq_true, if_false] at h1
+        exact Or.inl h1
+    · exact Or.inr ⟨k + 1, by omega, fs, by simpa using hfs, hm⟩
+
+theorem resolve_never_dash_field (fields : List (FieldInfo × Shape)) (name : Bytes) (i : Nat) (f : FieldInfo) (s : Shape)
+    (h : directField fields name = some (i, f, s)) :
+    f.jsonTag ≠ ['-'] ∧ jsonFieldName f = name ∧ isPromotedStruct f = false ∧ fields[i]? = some (f, s) := by
+  unfold directField at h
+  cases hfi : fieldIndex fields name with
+  | none => simp [hfi] at h
+  | some j =>
+    simp only [hfi] at h
+    cases hg : fields[j]? with
+    | none => simp [hg] at h
+    | some fs =>
+      obtain ⟨f', s'⟩ := fs
+      simp only [hg] at h
+      by_cases hp : isPromotedStruct f' = true
+      · simp [hp] at h
+      · simp only [hp, Bool.false_eq_true, if_false, Option.some.injEq, Prod.mk.injEq] at h
+        obtain ⟨rfl, rfl, rfl⟩ := h
+        rcases lemma_fieldIndexFrom_maps name fields 0 none j hfi with h0 | ⟨k, hjk, fs, hfs, hm⟩
+        · cases h0
+        · have : k = j := by omega
+          subst this
+          rw [hg] at hfs
+          cases hfs
+          simp only [mapsTo, Bool.and_eq_true, bne_iff_ne, ne_eq, Bool.not_eq_true', beq_iff_eq] at hm
+          exact ⟨hm.1.1, hm.2, by simpa using hp, hg⟩
+
+/-- a field of the struct itself takes precedence over anything its embedded structs promote, and a numeric
+    segment on a struct is a field *name* (K05d): `resolvePath` on a struct never consults `Atoi` -/
+theorem resolve_direct_first (fields : List (FieldInfo × Shape)) (part : Bytes) (rest : List Bytes)
+    (fld : Option FieldInfo) (d : Nat) (loc : Loc) (i : Nat) (f : FieldInfo) (s : Shape)
+    (h : directField fields part = some (i, f, s)) :
+    resolveFrom (part :: rest) (.struct fields) fld d loc = resolveFrom rest s (some f) 0 (loc ++ [i]) := by
+  simp [resolveFrom, derefHard, h]
+
+/-- a nil pointer on the way: the leaf is not validated -/
+theorem resolve_nil_pointer (part : Bytes) (rest : List Bytes) (fld : Option FieldInfo) (d : Nat) (loc : Loc) :
+    resolveFrom (part :: rest) .nilPtr fld d loc = none := by
+  simp [resolveFrom, derefHard]
+
+/-- on a slice or array a segment must be an index inside the bounds; the element keeps the container's
+    field and is one `dive` level further in -/
+theorem resolve_index (items : List Shape) (part : Bytes) (rest : List Bytes) (fld : Option FieldInfo) (d : Nat) (loc : Loc) :
+    resolveFrom (part :: rest) (.seq items) fld d loc =
+      match atoiIndex part with
+      | some idx => (match items[idx]? with
+        | some it => resolveFrom rest it fld (d + 1) (loc ++ [idx])
+        | none => none)
+      | none => none := by
+  simp only [resolveFrom, derefHard]
+  cases atoiIndex part with
+  | none => rfl
+  | some idx => cases items[idx]? <;> rfl
+
+/-- anything else (a basic value, a map, an interface) has nothing below it that resolves -/
+theorem resolve_other (part : Bytes) (rest : List Bytes) (fld : Option FieldInfo) (d : Nat) (loc : Loc) :
+    resolveFrom (part :: rest) .other fld d loc = none := by
+  simp [resolveFrom, derefHard]
+
+/-- an element has no rule unless the container's tag has a `dive`: the container's own rules (K05c) never
+    apply to it -/
+theorem elementTag_needs_dive (tag : Bytes) (d : Nat) (h : afterDive tag = none) : elementTag tag (d + 1) = [] := by
+  simp [elementTag, h]
+
+theorem elementTag_zero (tag : Bytes) : elementTag tag 0 = tag := rfl
+
+-- non-vacuity / worked instances: `type T struct { Base; Name string `json:"name" validate:"min=3"`; Tags []string
+-- `json:"tags" validate:"max=2,dive,min=2"`; Skip string `json:"-" validate:"required"` }`, `type Base struct { ID
+-- string `json:"id" validate:"required"` }`
+def wBase : Shape := .struct [(⟨"ID".toList, "id".toList, false, false, "required".toList⟩, .other)]
+def wT : Shape := .ptr (.struct [
+  (⟨"Base".toList, [], true, true, []⟩, wBase),
+  (⟨"Name".toList, "name".toList, false, false, "min=3".toList⟩, .other),
+  (⟨"Tags".toList, "tags".toList, false, false, "max=2,dive,min=2".toList⟩, .seq [.other, .other]),
+  (⟨"Skip".toList, "-".toList, false, false, "required".toList⟩, .other)])
+
+example : ruleAt wT "name".toList = some ([1], "min=3".toList) := by decide
+example : ruleAt wT "id".toList = some ([0, 0], "required".toList) := by decide          -- promoted (K05h)
+example : ruleAt wT "tags".toList = some ([2], "max=2,dive,min=2".toList) := by decide
+example : ruleAt wT "tags.1".toList = some ([2, 1], "min=2".toList) := by decide          -- what follows dive (K05c)
+example : ruleAt wT "tags.2".toList = none := by decide                                    -- past the end
+example : ruleAt wT "Skip".toList = none := by decide                                      -- json:"-" (K05k)
+example : ruleAt wT "Base".toList = none := by decide                                      -- the embedded struct's own name
+example : ruleAt wT "name.x".toList = none := by decide
+
+def wVar : VarTable :=
+  [([0, 0], "required".toList, [⟨"required".toList, [[]]⟩]), ([2, 1], "min=2".toList, [⟨"min".toList, [[]]⟩])]
+
+example : ownTagsT wT wVar "id".toList = [⟨"required".toList, ["id".toList]⟩] := by decide
+example : ownTagsT wT wVar "tags.1".toList = [⟨"min".toList, ["tags.1".toList]⟩] := by decide
+example : ownTagsT wT wVar "tags".toList = [] := by decide
+example : ownTagsT wT wVar "Skip".toList = [] := by decide
 
 end Rivaas.C05
